@@ -2,6 +2,7 @@ package main
 
 import (
 	"sort"
+	"strconv"
 
 	"github.com/lixianmin/got/sortx"
 	"verif/harness/hx"
@@ -299,6 +300,100 @@ func gen(c *hx.Ctx) {
 		c.Count("adversarial_large")
 		c.Count("adversarial_large")
 	}
+	// 5b. several SliceBy calls on the SAME backing arrays (state carried across calls, e.g. cached swappers):
+	// grow within capacity, shrink, same length with other contents, other value slice / element type
+	randKeys := func(n int) []int {
+		letters := c.Rng.Pick([]int{2, 5, 50, 1000})
+		a := make([]int, n)
+		for j := range a {
+			a[j] = c.Rng.Intn(letters)
+		}
+		if c.Rng.Intn(3) == 0 { // descending: every position is swapped, also the newly exposed tail
+			sort.Sort(sort.Reverse(sort.IntSlice(a)))
+		}
+		return a
+	}
+	multiModes := [][]string{{"int"}, {"str"}, {"int", "str"}, {"int", "intb"}, {"str", "strb"}, {"int", "str", "intb", "strb"}, {"intb"}, {"strb"}}
+	for _, l1 := range []int{1, 2, 3, 8, 13, 20} { // deterministic: sort a prefix, then a longer prefix of the same arrays
+		for _, l2 := range []int{l1 + 1, l1 + 5, 2*l1 + 13} {
+			for _, md := range []string{"int", "str", "intb", "strb"} {
+				c.Emit("multi %d %d | %s %s %d | %s %s %d | %s %s %d", l2, l2, md, showInts(pattern(c, "reversed", l1)), l1,
+					md, showInts(pattern(c, "reversed", l2)), l2, md, showInts(pattern(c, "random", l1)), l1)
+				c.Count("multi_grow_grid")
+			}
+		}
+	}
+	for i := 0; i < c.Budget(500, 8000); i++ {
+		kcap := c.Rng.Pick([]int{3, 8, 16, 20, 32, 64, 150})
+		vcap := kcap
+		if c.Rng.Intn(4) == 0 {
+			vcap = kcap + c.Rng.Range(-2, 3)
+			if vcap < 0 {
+				vcap = 0
+			}
+		}
+		modes := multiModes[c.Rng.Intn(len(multiModes))]
+		nsteps := c.Rng.Range(2, 6)
+		l := c.Rng.Range(0, kcap)
+		var sb []string
+		for st := 0; st < nsteps; st++ {
+			switch c.Rng.Intn(4) {
+			case 0, 1: // grow within capacity
+				l = c.Rng.Range(l, kcap)
+			case 2: // shrink
+				l = c.Rng.Range(0, l)
+			} // case 3: same length, different contents
+			nv := l
+			if nv > vcap || c.Rng.Intn(5) == 0 {
+				nv = c.Rng.Range(0, vcap)
+			}
+			sb = append(sb, modes[c.Rng.Intn(len(modes))]+" "+showInts(randKeys(l))+" "+itoa(nv))
+		}
+		line := "multi " + itoa(kcap) + " " + itoa(vcap)
+		for _, x := range sb {
+			line += " | " + x
+		}
+		c.Emit("%s", line)
+		c.Count("multi_random")
+	}
+	// 5c. string keys / UniqueString inputs that are substrings of ONE shared string (equal data pointers with different
+	// lengths, overlapping windows, equal contents at different addresses)
+	shKinds := []string{"pre", "suf", "win", "mix"}
+	for i := 0; i < c.Budget(600, 10000); i++ {
+		n := c.Rng.Range(0, 80)
+		letters := c.Rng.Pick([]int{2, 3, 5, 20, 61})
+		a := make([]int, n)
+		for j := range a {
+			a[j] = c.Rng.Intn(letters)
+		}
+		nv := n
+		if c.Rng.Intn(5) == 0 {
+			nv = c.Rng.Range(0, n+3)
+		}
+		emitSlice(c, "s"+shKinds[i%4], a, nv)
+		c.Count("shared_string_keys")
+	}
+	for _, kind := range shKinds {
+		for n := 0; n <= c.Budget(5, 7); n++ {
+			seqOver(3, n, func(a []int) {
+				c.Emit("unique %s %s", kind, showInts(a))
+				c.Count("unique_shared_exhaustive")
+			})
+		}
+	}
+	for i := 0; i < c.Budget(800, 12000); i++ {
+		n := c.Rng.Range(0, 60)
+		letters := c.Rng.Pick([]int{2, 3, 4, 10, 61})
+		a := make([]int, n)
+		for j := range a {
+			a[j] = c.Rng.Intn(letters)
+		}
+		if c.Rng.Intn(3) > 0 { // sorted lists of prefixes (ancestor paths) are adjacent by construction
+			sort.Ints(a)
+		}
+		c.Emit("unique %s %s", shKinds[i%4], showInts(a))
+		c.Count("unique_shared_random")
+	}
 	// 6. Unique: exhaustive over 3 letters, random, sorted
 	U := c.Budget(7, 10)
 	for n := 0; n <= U; n++ {
@@ -433,3 +528,5 @@ func gen(c *hx.Ctx) {
 		c.Emit("unique %s %s", kind, showInts(a))
 	}
 }
+
+func itoa(i int) string { return strconv.Itoa(i) }
